@@ -2,6 +2,7 @@
 import core
 import prims
 import moveout
+import blobs
 from core import op_local, op_place
 from engine import Rule
 
@@ -115,8 +116,8 @@ def t1(ctx, rid):
             if og.kind == 'call':
                 c = og.data
                 tg = prog.resolve(c)
-                if OPEN_NEW in tg:
-                    detail.append('open_new')
+                if OPEN_NEW in tg or blobs.is_fresh_call(prog, c):
+                    detail.append('open_new' if OPEN_NEW in tg else 'fresh blob via %s' % c.name)
                     continue
                 if c.name in ('map', 'map_or') and c.path.startswith('std::option::Option'):
                     # Option<Blob>::map(|ab| Box::new(RwLock::new(ab))): look at the receiver
